@@ -219,7 +219,7 @@ def run(ctx):
     for b1, b2 in (list(itertools.permutations(sorted(BAD), 2)) if not ctx.quick else rng.sample(list(itertools.permutations(sorted(BAD), 2)), 60)):
         cases.append({'kinds': [b1, 'warn', b2], 'mode': rng.choice(['text', 'json']), 'threads': rng.choice([1, 2, 3]), 'choices': [rng.randint(0, 2) for _ in range(20)]})
     ctx.map(cases)
-    ctx.hyp('strat_list', 400 if ctx.quick else 8000, label=1, shards=16)
+    ctx.hyp('strat_list', 3000 if ctx.quick else 40000, label=1, shards=16)
     free = [{'kinds': [rng.choice(ALLK) for _ in range(rng.randint(2, 5))] + ['good', 'refused'], 'mode': rng.choice(['text', 'json']), 'threads': rng.choice([2, 3, 5]), 'choices': None} for _ in range(40 if ctx.quick else 600)]
     ctx.map(free)
     ctx.note(failure_archetypes=sorted(BAD), healthy_archetypes=sorted(HEALTHY))
